@@ -400,6 +400,7 @@ class C07(Engine):
 		cases.append({'pool': pool, 'steps': [V(base[0]), {'kind': 'corrupt', 'corruption': 'truncate', 'text': 'def f(k: int) -> int:\n\treturn (k +'}, V(base[0]), {'kind': 'corrupt', 'corruption': 'flip', 'text': 'def f(k: int) -> int:\n\treturn k $ 1'}, V(base[1])]})
 		cases.append({'pool': pool, 'steps': [V(base[1]), {'kind': 'corrupt', 'corruption': 'indent', 'text': 'def f(k: int) -> int:\n\t\t\treturn k\n\treturn k'}, V(base[1])]})
 		for i in range(0, len(corpus.ILL_TYPED), 4):
+			# every ill-typed text also goes through the disk path (where the error block quotes the source file)
 			steps = [V(base[2])]
 			for t in corpus.ILL_TYPED[i:i + 4]:
 				steps += [{'kind': 'ill-typed', 'text': t}, {'kind': 'disk', 'text': t, 'mode': 'load'}]
@@ -428,8 +429,11 @@ class C07(Engine):
 				steps.append({'kind': 'ill-typed', 'text': rng.choice(corpus.ILL_TYPED)})
 			else:
 				c = rng.choice(kinds)
-				src = rng.choice(base + [pool['variants'][m][0]['src'].rstrip('\n') for m in pool['modules']])
-				steps.append({'kind': 'disk', 'corruption': c, 'text': corrupt(src, c, rng), 'mode': rng.choice(['load', 'load', 'runner']), 'twice': rng.random() < 0.3})
+				if rng.random() < 0.3:
+					steps.append({'kind': 'disk', 'text': rng.choice(corpus.ILL_TYPED), 'mode': rng.choice(['load', 'runner']), 'twice': rng.random() < 0.3})
+				else:
+					src = rng.choice(base + [pool['variants'][m][0]['src'].rstrip('\n') for m in pool['modules']])
+					steps.append({'kind': 'disk', 'corruption': c, 'text': corrupt(src, c, rng), 'mode': rng.choice(['load', 'load', 'runner']), 'twice': rng.random() < 0.3})
 		return {'pool': pool, 'steps': steps}
 
 	def execute(self, case: dict[str, Any]) -> dict[str, Any]:
